@@ -258,3 +258,54 @@ __CPROVER_ensures((object != NULL && string != NULL) ==> (g_cr_calls == 1 && g_r
 __CPROVER_ensures(!RET ==> LIVE_SAME) /*@C08 C07*/
 __CPROVER_ensures(C14_POST(global_hooks)) /*@C14*/
 __CPROVER_assigns(g_cr_ret, g_cr_calls, g_ref_src, g_ref_hooks, g_del_arg, g_del_calls, GHOST_AITO, GHOST_ALLOC; object != NULL: object->child);
+
+/* ------------------------------------------------------------------ callee views: cJSON_free, get_object_item, cJSON_ReplaceItemViaPointer */
+void *g_free_arg; size_t g_free_calls;
+#ifndef VF_ENF_cJSON_free
+CJSON_PUBLIC(void) cJSON_free_cv(void *object)
+__CPROVER_requires(object == NULL || __CPROVER_POINTER_OFFSET(object) == 0)
+__CPROVER_ensures(g_live == ((__CPROVER_old(g_live) == object) ? NULL : __CPROVER_old(g_live)) && g_free_arg == object && g_free_calls == __CPROVER_old(g_free_calls) + 1)
+__CPROVER_ensures(g_hook_allocs == __CPROVER_old(g_hook_allocs) && C14_POST(global_hooks))
+__CPROVER_assigns(GHOST_ALLOC, g_free_arg, g_free_calls)
+__CPROVER_frees(object);
+#endif
+cJSON *g_goi_ret; const cJSON *g_goi_object; const char *g_goi_name; cJSON_bool g_goi_cs; size_t g_goi_calls;
+#define GHOST_GOI g_goi_object, g_goi_name, g_goi_cs, g_goi_calls
+#ifndef VF_ENF_get_object_item
+static cJSON *get_object_item_cv(const cJSON * const object, const char * const name, const cJSON_bool case_sensitive)
+__CPROVER_requires(name == NULL || __CPROVER_r_ok(name, 1))
+__CPROVER_ensures(g_goi_ret == NULL ? RET == NULL : (__CPROVER_pointer_in_range_dfcc(g_goi_ret, RET, g_goi_ret) && RET == g_goi_ret))
+__CPROVER_ensures(g_goi_object == object && g_goi_name == name && g_goi_cs == case_sensitive && g_goi_calls == __CPROVER_old(g_goi_calls) + 1)
+__CPROVER_assigns(GHOST_GOI);
+#endif
+cJSON *g_rvp_parent, *g_rvp_item, *g_rvp_repl; cJSON_bool g_rvp_ret; size_t g_rvp_calls;
+#define GHOST_RVP g_rvp_parent, g_rvp_item, g_rvp_repl, g_rvp_ret, g_rvp_calls
+#ifdef VF_RVP_VIEW
+CJSON_PUBLIC(cJSON_bool) cJSON_ReplaceItemViaPointer(cJSON * const parent, cJSON * const item, cJSON * replacement)
+__CPROVER_ensures(g_rvp_parent == parent && g_rvp_item == item && g_rvp_repl == replacement && g_rvp_ret == RET && g_rvp_calls == __CPROVER_old(g_rvp_calls) + 1 && (RET == 0 || RET == 1))
+__CPROVER_ensures((parent == NULL || item == NULL || replacement == NULL) ==> !RET)
+__CPROVER_ensures(LIVE_SAME && C14_POST(global_hooks))
+__CPROVER_assigns(GHOST_RVP, GHOST_ALLOC; replacement != NULL: replacement->next, replacement->prev);
+#endif
+
+/* ------------------------------------------------------------------ replace_item_in_object (C06; C07: the key may be the replacement's own key; C08) */
+#define RIO_REFUSED (replacement == NULL || string == NULL)
+#define RIO_KEY_OWNED (!(__CPROVER_old(replacement->type) & cJSON_StringIsConst) && __CPROVER_old(replacement->string) != NULL)
+static cJSON_bool replace_item_in_object(cJSON *object, const char *string, cJSON *replacement, cJSON_bool case_sensitive)
+__CPROVER_requires(HOOKS_OK(global_hooks) && g_dup_calls == 0 && g_goi_calls == 0 && g_rvp_calls == 0 && g_free_calls == 0 && (string == NULL || STR(string, g_str_n)))
+__CPROVER_requires(replacement == NULL || (__CPROVER_is_fresh(replacement, sizeof(cJSON)) &&
+    ((g_alias && string != NULL) ? (__CPROVER_pointer_in_range_dfcc(string, replacement->string, string) && replacement->string == string) : (replacement->string == NULL || __CPROVER_is_fresh(replacement->string, 1)))))
+__CPROVER_ensures(RIO_REFUSED ==> (!RET && g_dup_calls == 0 && g_goi_calls == 0 && g_rvp_calls == 0 && g_free_calls == 0)) /*@C06*/
+/* one owned copy of the key, taken while the key argument is still valid (callee precondition) */
+__CPROVER_ensures(!RIO_REFUSED ==> (g_dup_calls == 1 && g_dup_src == (const unsigned char*)string)) /*@C06 C07*/
+/* C08: if the copy fails the call fails and nothing was changed or released */
+__CPROVER_ensures((!RIO_REFUSED && g_dup_ret == NULL) ==> (!RET && replacement->string == __CPROVER_old(replacement->string) && replacement->type == __CPROVER_old(replacement->type) && g_free_calls == 0 && g_rvp_calls == 0)) /*@C08*/
+/* otherwise the replacement gets the owned copy; its previous key is released exactly when it owned one */
+__CPROVER_ensures((!RIO_REFUSED && g_dup_ret != NULL) ==> (replacement->string == (char*)g_dup_ret && replacement->type == (__CPROVER_old(replacement->type) & ~cJSON_StringIsConst))) /*@C06 C07*/
+__CPROVER_ensures((!RIO_REFUSED && g_dup_ret != NULL) ==> (RIO_KEY_OWNED ? (g_free_calls == 1 && g_free_arg == (void*)__CPROVER_old(replacement->string)) : g_free_calls == 0)) /*@C07*/
+/* the member is looked up by the caller's key with the caller's case rule (while the key is still valid) and replaced through the pointer variant */
+__CPROVER_ensures((!RIO_REFUSED && g_dup_ret != NULL) ==> (g_goi_calls == 1 && g_goi_object == object && g_goi_name == string && g_goi_cs == case_sensitive &&
+    g_rvp_calls == 1 && g_rvp_parent == object && g_rvp_item == g_goi_ret && g_rvp_repl == replacement && RET == g_rvp_ret)) /*@C06*/
+__CPROVER_ensures(C14_POST(global_hooks)) /*@C14*/
+__CPROVER_assigns(GHOST_DUP, GHOST_GOI, GHOST_RVP, GHOST_ALLOC, g_free_arg, g_free_calls; replacement != NULL: replacement->string, replacement->type, replacement->next, replacement->prev)
+__CPROVER_frees(replacement != NULL: replacement->string);
